@@ -25,8 +25,12 @@
 EXTENDS Query, Pool, StreamName, TLC
 
 CONSTANTS MaxRows,         \* 65536 in the library's reader; scaled in bounded models
-          ExactPool        \* TRUE: packages written by the library (exact reference counts);
+          ExactPool,       \* TRUE: packages written by the library (exact reference counts);
                            \* FALSE: files of other writers may over-count (C02)
+          AsIs             \* set of NAMED DEVIATIONS of the executable model: behaviours the pinned code had
+                           \* before it was repaired.  {} in every check; bin/selftest switches them on one at
+                           \* a time to show that TLC then finds the corresponding property violated
+                           \* (the properties are not vacuous in the bounded models)
 
 VARIABLES
   schemas,   \* in memory: table name -> column list (catalog tables included)
@@ -126,7 +130,8 @@ UpdRow(cols, p, row, sets) ==
            [pool |-> p, row |-> row], sets)
 
 DoUpdate(st, t, cols, sets, cond) ==
-  LET v == UpdateV(cols, RowsIn(st.pool, st.ts, t), sets, cond)
+  LET v == IF "UpdateNoRekey" \in AsIs /\ SetsValid(cols, sets) = "yes" /\ KnownCols(cols, cond) THEN Ok(<<>>)
+           ELSE UpdateV(cols, RowsIn(st.pool, st.ts, t), sets, cond)
   IN IF IsErr(v) THEN Err
      ELSE LET x == FoldLeft(LAMBDA acc, row :
                                IF Holds(cond, RowOf(cols, ResolveRow(st.pool, row)))
@@ -135,7 +140,7 @@ DoUpdate(st, t, cols, sets, cond) ==
                                ELSE [pool |-> acc.pool, rows |-> Append(acc.rows, row)],
                              [pool |-> st.pool, rows |-> <<>>], TsGet(st.ts, t))
           IN IF Len(x.pool) > MaxRefs THEN Err
-             ELSE Ok([pool |-> x.pool, ts |-> TsSet(st.ts, t, SortCells(cols, x.pool, x.rows))])
+             ELSE Ok([pool |-> x.pool, ts |-> TsSet(st.ts, t, IF "UpdateNoRekey" \in AsIs THEN x.rows ELSE SortCells(cols, x.pool, x.rows))])
 
 TableIs(t) == Bin("eq", Col(N_Table), Lit(StrV(t)))
 NameIs(t)  == Bin("eq", Col(N_Name), Lit(StrV(t)))
@@ -158,7 +163,7 @@ DoCreate(st, t, cols, hasV) ==
   IN c
 
 DoDrop(st, t) ==
-  LET p1 == ReleaseRows(st.pool, TsGet(st.ts, t))
+  LET p1 == IF "DropLeaky" \in AsIs THEN st.pool ELSE ReleaseRows(st.pool, TsGet(st.ts, t))
       s1 == [pool |-> p1, ts |-> TsDel(st.ts, t)]
       a == IF N_Validation \in DOMAIN s1.ts THEN DoDelete(s1, N_Validation, ValidationCols, TableIs(t)).ok ELSE s1
       b == DoDelete(a, N_Columns, ColumnsCols, TableIs(t)).ok
@@ -192,7 +197,15 @@ Applied(op, args, st) ==   \* a table operation that produced the local state st
 CreateTable(t, cols) ==
   /\ Open
   /\ LET r == IF CreateAccepted(t, cols) THEN DoCreate(St0, t, cols, N_Validation \in DOMAIN schemas) ELSE Err
-     IN IF IsErr(r) THEN UNCHANGED schemas /\ Rejected("CreateTable", [table |-> t, cols |-> cols])
+     IN IF IsErr(r) /\ "CreateHalf" \in AsIs /\ CreateOK(t, cols) /\ t \notin DOMAIN schemas
+        THEN LET a == DoInsert(St0, N_Columns, ColumnsCols, ColumnsRows(t, cols))
+                 b == IF IsErr(a) THEN Err ELSE DoInsert(a.ok, N_Tables, TablesCols, <<<<StrV(t)>>>>)
+             IN IF IsErr(b) THEN UNCHANGED schemas /\ Rejected("CreateTable", [table |-> t, cols |-> cols])
+                ELSE /\ schemas' = [x \in DOMAIN schemas \cup {t} |-> IF x = t THEN cols ELSE schemas[x]]
+                     /\ tstream' = b.ok.ts /\ pool' = b.ok.pool
+                     /\ dirty' = [dirty EXCEPT !.fin = TRUE, !.pool = TRUE] /\ DiskSame /\ Rest
+                     /\ Log("CreateTable", [table |-> t, cols |-> cols], "Err")
+        ELSE IF IsErr(r) THEN UNCHANGED schemas /\ Rejected("CreateTable", [table |-> t, cols |-> cols])
         ELSE /\ schemas' = [x \in DOMAIN schemas \cup {t} |-> IF x = t THEN cols ELSE schemas[x]]
              /\ Applied("CreateTable", [table |-> t, cols |-> cols], r.ok)
 
@@ -271,7 +284,7 @@ AddSignature ==
 \* The finisher: writes the summary stream and the pool streams if modified.
 Finish ==
   /\ dsum'  = IF dirty.fin /\ dirty.sum  THEN summary ELSE dsum
-  /\ dpool' = IF dirty.fin /\ dirty.pool THEN [cp |-> cp, e |-> pool] ELSE dpool
+  /\ dpool' = IF dirty.fin /\ dirty.pool /\ "FinisherSkipsPool" \notin AsIs THEN [cp |-> cp, e |-> pool] ELSE dpool
   /\ dirty' = IF dirty.fin THEN [fin |-> FALSE, sum |-> FALSE, pool |-> FALSE] ELSE dirty
 
 Close(op, s2) ==
